@@ -110,7 +110,7 @@ class AnalyticalPropagator(Speaker, Propagator):
         step = kwargs.get("step")
         dates = kwargs.get("dates")
 
-        if dates:
+        if dates is not None:
             for date in dates:
                 yield self.propagate(date)
         else:
